@@ -127,6 +127,11 @@ impl Block {
         BlockCursor::new(self.clone())
     }
 
+    /// True iff the block holds no key-value pairs (what sealing a fresh builder yields).
+    pub fn is_empty(&self) -> bool {
+        self.restarts_boundary == 0
+    }
+
     fn restart_point(&self, restart_idx: usize) -> usize {
         assert!(restart_idx < self.num_restarts);
         let mut restart: [u8; 4] = <[u8; 4]>::default();
@@ -598,6 +603,12 @@ impl Cursor for BlockCursor {
             return Err(corruption_block_with_zero_restarts());
         }
 
+        // A block without key-value pairs has nothing at or after any key.
+        if self.block.is_empty() {
+            self.position = CursorPosition::Last;
+            return Ok(());
+        }
+
         // Binary search to the correct restart point.
         let mut left: usize = 0usize;
         let mut right: usize = self.block.num_restarts - 1;
@@ -731,6 +742,11 @@ impl Cursor for BlockCursor {
     fn next(&mut self) -> Result<(), SError> {
         // We start with the first block.
         if let CursorPosition::First = self.position {
+            // A block without key-value pairs goes straight from First to Last.
+            if self.block.is_empty() {
+                self.position = CursorPosition::Last;
+                return Ok(());
+            }
             self.seek_restart(0)?;
             return Ok(());
         }
